@@ -339,6 +339,9 @@ func (t *terminal) encodeKittyKey(ev KeyEvent, flags int) []byte {
 		return kittyCSITilde(23, modField)
 	case KeyF12:
 		return kittyCSITilde(24, modField)
+	case KeyKPBegin:
+		// The protocol assigns KP_BEGIN "1 E" (or "57427 ~"), not a CSI u form.
+		return kittyCSI1('E', modField)
 	case KeyEscape:
 		if flags&int(KbdReportAllKeys) != 0 || flags&int(KbdDisambiguate) != 0 {
 			return kittyCSIu(kittyKeyField(27, ev, flags), modField, kittyTextField(ev, flags))
